@@ -36,7 +36,8 @@ def bad(kind, i):
 
 
 def unreadable(kind):
-    return {"hlen": bytes([5, 0x10, 2, 8, 0, 8, 1, 0]), "ver": bytes([6, 0x11, 2, 8, 0, 8, 1, 0]), "tot": bytes([6, 0x10, 2, 8, 0, 3, 1, 0])}[kind]
+    return {"hlen": bytes([5, 0x10, 2, 8, 0, 8, 1, 0]), "ver": bytes([6, 0x11, 2, 8, 0, 8, 1, 0]), "tot": bytes([6, 0x10, 2, 8, 0, 3, 1, 0]),
+            "tot0": bytes([6, 0x10, 4, 0x21, 0, 0, 1, 0]), "tot5": bytes([6, 0x10, 2, 8, 0, 5, 1, 0])}[kind]
 
 
 def feed(transport_kind, stream_frames, chunks):
@@ -98,7 +99,8 @@ def streams(ck, rnd):
     B = lambda k, i: (bad(k, i), "bad", -1)
     U = lambda k: (unreadable(k), "unreadable", -1)
     short = [[G(1), G(2)], [B("svc", 9), G(1)], [B("body", 9), G(1)], [G(1), B("enum", 9), G(2)], [G(1), U("hlen"), G(2)], [U("tot"), G(1)],
-             [G(1, 10), B("svc", 9)], [B("body", 9), B("enum", 9), G(3)], [G(1), U("ver")]]
+             [G(1, 10), B("svc", 9)], [B("body", 9), B("enum", 9), G(3)], [G(1), U("ver")],
+             [G(1), U("tot0"), G(2)], [U("tot5"), G(1)]]
     res = [("tcp", s, 4096 if ck.tier == "quick" else 70000) for s in short]
     for _ in range(60 if ck.tier == "quick" else 600):
         n = rnd.randrange(3, 50)
@@ -107,7 +109,7 @@ def streams(ck, rnd):
             r = rnd.random()
             s.append(G(i + 1, rnd.choice([8, 10, 11, 21, 40, 264])) if r < 0.7 else B(rnd.choice(["svc", "body", "enum", "long"]), i + 1))
         if rnd.random() < 0.2:
-            s.insert(rnd.randrange(len(s)), U(rnd.choice(["hlen", "ver", "tot"])))
+            s.insert(rnd.randrange(len(s)), U(rnd.choice(["hlen", "ver", "tot", "tot0", "tot5"])))
         res.append(("tcp", s, 25))
     # secure session before its handshake: only a plain SessionResponse is passed on, wrappers and other plain frames are not
     sresp = lambda i: (bytes([6, 0x10, 9, 0x52, 0, 56, 0, i]) + bytes(48), "good", i)
